@@ -78,10 +78,10 @@ func genRace(t *rapid.T) RaceCase {
 			c.StayUp = append(c.StayUp, i)
 		}
 	}
-	switch rapid.IntRange(0, 5).Draw(t, "mode") {
-	case 0:
+	switch rapid.IntRange(0, 7).Draw(t, "mode") {
+	case 0, 1:
 		return c // park
-	case 1, 2:
+	case 2:
 		return genSpin(t)
 	}
 	c.Mode = "lock"
@@ -115,7 +115,7 @@ var spinKinds = []string{"remove", "remove", "remove", "remove", "up", "up", "up
 
 func genSpin(t *rapid.T) RaceCase {
 	h := &Case{Init: rapid.IntRange(3, 5).Draw(t, "init")}
-	n := rapid.IntRange(60, 200).Draw(t, "nOps")
+	n := rapid.IntRange(60, 160).Draw(t, "nOps")
 	for i := 0; i < n; i++ {
 		op := Op{Kind: rapid.SampledFrom(spinKinds).Draw(t, "kind"), Pick: rapid.IntRange(0, 15).Draw(t, "pick")}
 		switch op.Kind {
